@@ -14,6 +14,7 @@
 -/
 import LiteFSVerif.Props.C11
 import LiteFSVerif.Gen.Facts
+import LiteFSVerif.Proofs.SnapshotBytes
 
 namespace LiteFSVerif.C10
 open LiteFSVerif LiteFSVerif.Locks LiteFSVerif.Engine LiteFSVerif.RWMutex
@@ -96,5 +97,21 @@ theorem C10_self_check (lock : Nat) (imgs : List Spec.Img) (hcf : CollisionFree 
     (atPos read : Spec.Img) (h1 : atPos ∈ imgs) (h2 : read ∈ imgs)
     (hcheck : Spec.checksum lock read = Spec.checksum lock atPos) : read = atPos :=
   hcf read h2 atPos h1 hcheck
+
+/-- engine, byte level (`WriteSnapshotTo` at quiescence, database below the lock page): a
+    snapshot that is produced names exactly the node's position (TXID and checksum), and applied
+    by any node it leaves a database file of exactly `pageN` pages whose every byte is the byte of
+    the logical page the snapshot read — the committed WAL frame of that page if the WAL holds
+    one, else the database file's page.  One position, one image: nothing of another position can
+    be in it, because every byte is determined by the state `s` the snapshot was taken from. -/
+theorem C10_snapshot_is_image_of_its_position (s : Engine.Eng) (nodeID : Nat) (f : Engine.LTXFile)
+    (h : Cluster.snapshotFile s nodeID = some f) (hlock : s.pageN < 1073741824 / s.pageSize + 1) :
+    f.minTxid = 1 ∧ f.maxTxid = s.posTxid ∧ f.post = s.posChk ∧ f.commit = s.pageN ∧
+    ∀ (r r' : Engine.Eng) (fatal : Bool), Engine.applyLTX r f fatal = .ok r' → s.pageN > 0 →
+      (r.pageSize = 0 ∨ r.pageSize = s.pageSize) →
+      ∃ d', r'.dbFile = some d' ∧ d'.size = s.pageN * s.pageSize ∧
+        ∀ i, i < d'.size → ∃ pg, Cluster.logicalPage s (i / s.pageSize) = some pg ∧
+          BA.getD d' i = BA.getD pg (i % s.pageSize) :=
+  Cluster.snapshot_bytes s nodeID f h hlock
 
 end LiteFSVerif.C10
